@@ -102,6 +102,30 @@ def buildDelegs (cty : DType) (specs : List DSpec) : Except Err (Delegations Det
       | some x => setDetails detOps d x
     addDelegation ds d) { ty := cty, items := [] }
 
+/-- construct the arguments of one call (details object, `Delegation(...)`, `set_details` each) -/
+def buildArgs (specs : List DSpec) : Except Err (List (Delegation Det)) :=
+  specs.mapM (fun s => do
+    let x ← match s.det with
+      | none => pure none
+      | some (k, j) => (mkDet k j).map some
+    let d ← mkDelegation s.ty s.id s.fmt s.pool
+    match x with
+      | none => pure d
+      | some x => setDetails detOps d x)
+
+/-- a sequence of `add_delegations(*args)` calls; stops at the first exception; the container as it is then -/
+def runCalls (cty : DType) (calls : List (List DSpec)) : Delegations Det × Option Err :=
+  let rec go (ds : Delegations Det) : List (List DSpec) → Delegations Det × Option Err
+    | [] => (ds, none)
+    | c :: rest =>
+      match buildArgs c with
+      | .error e => (ds, some e)
+      | .ok args =>
+        match addDelegations ds args with
+        | (ds', some e) => (ds', some e)
+        | (ds', none) => go ds' rest
+  go { ty := cty, items := [] } calls
+
 def dvalWire : DVal → Json
   | .none => .null
   | .int i => .num (JsonNumber.fromInt i)
@@ -140,6 +164,13 @@ structure PSpec where
   for_ : List String
   det : Option (DType × JVal)
   ctor : Bool
+  forOps : List (String × List String)
+
+def forOp (j : Json) : Option (String × List String) :=
+  match j with
+  | .arr #[.str "add1", .str n] => some ("add1", [n])
+  | .arr #[.str k, l] => (getStrs l).map (fun l => (k, l))
+  | _ => none
 
 def pspec (j : Json) : Option PSpec := do
   let ty ← tyOf (← (j.getObjValAs? String "ty").toOption)
@@ -149,27 +180,49 @@ def pspec (j : Json) : Option PSpec := do
   let for_ ← getStrs (← (j.getObjVal? "for").toOption)
   let det ← detSpec (← (j.getObjVal? "det").toOption)
   let mode ← (j.getObjValAs? String "mode").toOption
-  pure { ty, id, deleg, on_, for_, det, ctor := mode == "ctor" }
+  let forOps ← match j.getObjVal? "forops" with
+    | .ok (.arr xs) => xs.toList.mapM forOp
+    | _ => some []
+  pure { ty, id, deleg, on_, for_, det, ctor := mode == "ctor", forOps }
 
 def pspecs (j : Json) : Option (List PSpec) :=
   match j with
   | .arr xs => xs.toList.mapM pspec
   | _ => none
 
-/-- construct the pools one after the other (`Pool(...)`, setters, `set_pool_details`), `add_pool` each,
-then `build_index_by_delegation_id` -/
+/-- `Pool(...)`, the `set_defined_for` / `add_defined_for` calls of the spec, `set_pool_details` -/
+def buildPool (s : PSpec) : Except Err (Pool Det) := do
+  let p : Pool Det :=
+    if s.ctor then mkPool s.ty s.id s.deleg s.on_ s.for_
+    else { ty := s.ty, pid := s.id, deleg := s.deleg, on_ := s.on_, for_ := s.for_.foldl addSet [], details := none }
+  let p ← s.forOps.foldlM (fun (p : Pool Det) op =>
+    if op.1 == "set" then setDefinedFor p op.2 else pure (addDefinedFor p op.2)) p
+  match s.det with
+    | none => pure p
+    | some (k, j) => do
+      let x ← mkDet k j
+      pure { p with details := some x }
+
+/-- construct the pools one after the other, `add_pool` each, then `build_index_by_delegation_id` -/
 def buildFamily (cty : DType) (specs : List PSpec) : Except Err (Pools Det) := do
   let ps ← specs.foldlM (fun ps s => do
-    let p : Pool Det :=
-      if s.ctor then mkPool s.ty s.id s.deleg s.on_ s.for_
-      else { ty := s.ty, pid := s.id, deleg := s.deleg, on_ := s.on_, for_ := s.for_.foldl addSet [], details := none }
-    let p ← match s.det with
-      | none => pure p
-      | some (k, j) => do
-        let x ← mkDet k j
-        pure { p with details := some x }
+    let p ← buildPool s
     addPool ps p) (emptyPools cty)
   buildIndex ps
+
+inductive PStep where
+  | add (s : PSpec) | index | gen
+
+def pstep (j : Json) : Option PStep :=
+  match j with
+  | .arr #[.str "add", x] => (pspec x).map PStep.add
+  | .arr #[.str "index"] => some .index
+  | .arr #[.str "gen"] => some .gen
+  | _ => none
+
+def errJson : Option Err → Json
+  | none => .null
+  | some e => .str (errName e)
 
 def reply {α : Type} (f : α → Json) : Except Err α → Json
   | .ok a => ok (f a)
@@ -212,6 +265,33 @@ def handle (j : Json) : Json :=
             let r' ← recode detOps ty r
             incorporateAll (emptyPools ty) r')
         | none => err "bad-args"
+      else if op == "calls" then
+        match x with
+        | .arr cs =>
+          match cs.toList.mapM dspecs with
+          | some calls =>
+            let r := runCalls ty calls
+            ok (.arr #[delegsJson r.1, errJson r.2])
+          | none => err "bad-args"
+        | _ => err "bad-args"
+      else if op == "pseq" then
+        match x with
+        | .arr st =>
+          match st.toList.mapM pstep with
+          | some steps =>
+            let r := steps.foldl (fun (acc : Pools Det × List Json) step =>
+              match step with
+              | .add s =>
+                match (do let p ← buildPool s; addPool acc.1 p) with
+                | .ok ps => (ps, acc.2 ++ [Json.null])
+                | .error e => (acc.1, acc.2 ++ [Json.str (errName e)])
+              | .index =>
+                let r := buildIndexS acc.1
+                (r.1, acc.2 ++ [errJson r.2])
+              | .gen => (acc.1, acc.2 ++ [reply nodeDelegsJson (generate detOps acc.1)])) (emptyPools ty, [])
+            ok (.arr r.2.toArray)
+          | none => err "bad-args"
+        | _ => err "bad-args"
       else if op == "inc" then
         match x with
         | .arr nodes =>
